@@ -552,6 +552,21 @@ class Lib:
                 return Builtin("dict.get", lambda I_, a, k: I_.d_get(o, a[0], a[1] if len(a) > 1 else None))
             if name == "pop":
                 return Builtin("dict.pop", lambda I_, a, k: I_.d_pop(o, a[0], a[1] if len(a) > 1 else MISSING, site=node))
+            if name == "clear":
+                def clear(I_, a, k):
+                    I_.d_set_dom(o, z3.K(sort_of(o.typ.args[0]), z3.BoolVal(False)))
+                    return None
+                return Builtin("dict.clear", clear)
+            if name == "setdefault":
+                def setdefault(I_, a, k):
+                    if I_.c.branch(I_.as_bool(I_.d_contains(o, a[0])), "setdefault-hit"):
+                        return I_.d_getitem(o, a[0], None, node)
+                    v = a[1] if len(a) > 1 else None
+                    I_.d_setitem(o, a[0], v)
+                    return v
+                return Builtin("dict.setdefault", setdefault)
+            if hasattr(dict, name):
+                raise Unsupported(f"dict.{name} on a heap dict")  # a real dict method this model does not cover: never an AttributeError
             return MISSING
         r = self.model_obj_attr(I, o, name, fr, node)
         return r
@@ -581,6 +596,8 @@ class Lib:
 
     # ------------------------------------------------------------------ builtins (A-NUM, A-ENUM)
     def b_int(self, I, a, k):
+        if len(a) > 1 or k:
+            raise Unsupported("int() with a base")
         v = I.force(a[0]) if a else 0
         i = I.intv(v)
         if i is not None:
@@ -618,6 +635,8 @@ class Lib:
         return self.to_str(I, a[0]) if a else ""
 
     def b_float(self, I, a, k):
+        if len(a) != 1 or k:
+            raise Unsupported("float() with other than one positional argument")
         v = a[0]
         if isinstance(v, (int, float)) and not isinstance(v, bool):
             return float(v)
@@ -633,6 +652,8 @@ class Lib:
         raise Unsupported(f"float({v!r})")
 
     def b_round(self, I, a, k):
+        if len(a) > 1 or k:
+            raise Unsupported("round() with ndigits")
         v = a[0]
         if isinstance(v, float):
             try:
@@ -771,6 +792,8 @@ class Lib:
         xs = list(xs)
         if any(isinstance(x, (Sym, Obj)) for x in xs):
             raise Unsupported("sorted of symbolic values")
+        if "key" in k and k["key"] is not None:
+            raise Unsupported("sorted with a key function")
         return sorted(xs, reverse=bool(k.get("reverse", False)))
 
     def b_list(self, I, a, k):
